@@ -171,6 +171,23 @@ func c49Sigs(groups []c49Group) []string {
 	return out
 }
 
+// c49Leafs is the set of innermost nebula functions the goroutines sit in: the stable part of a witness class (the same
+// blocking call can strand the tun reader, the handshake manager or a udp reader, and then shows up as a Wait that never
+// returns or as a plain leftover goroutine).
+func c49Leafs(groups []c49Group) []string {
+	set := map[string]bool{}
+	for i := range groups {
+		s := groups[i].sig()
+		set[s[:strings.Index(s, "<-")]] = true
+	}
+	var out []string
+	for s := range set {
+		out = append(out, s)
+	}
+	sort.Strings(out)
+	return out
+}
+
 func c49Dump(groups []c49Group) []string {
 	var out []string
 	for _, g := range groups {
@@ -304,6 +321,8 @@ type c49Tun struct {
 	done   chan struct{}
 	once   sync.Once
 	closes atomic.Int32
+	reads  atomic.Int64 // frames nebula took
+	writes atomic.Int64 // frames nebula delivered
 }
 
 func c49NewTun(nets []netip.Prefix) *c49Tun {
@@ -338,6 +357,7 @@ func (t *c49Tun) Read(b []byte) (int, error) {
 	case <-t.done:
 		return 0, os.ErrClosed
 	case p := <-t.rx:
+		t.reads.Add(1)
 		return copy(b, p), nil
 	}
 }
@@ -351,6 +371,7 @@ func (t *c49Tun) Write(b []byte) (int, error) {
 	case <-t.done:
 		return 0, io.ErrClosedPipe
 	case t.tx <- p:
+		t.writes.Add(1)
 		return len(b), nil
 	}
 }
@@ -591,7 +612,7 @@ func (w *c49World) traffic(src *c49Node, dst netip.Addr, k int) {
 				return
 			case <-b:
 				tm.Stop()
-				n = 4 + rng.IntN(12)
+				n = 60 + rng.IntN(200) // long enough to still be running while the node goes down
 			case <-tm.C:
 			}
 			for i := 0; i < n; i++ {
@@ -758,7 +779,8 @@ func (w *c49World) stop(n *c49Node, class string, o c49StopOpts) bool {
 		return out
 	}
 
-	// no new harness-initiated work for this node; whatever is in flight overlaps with the stop
+	before, _ := c49Alive(n.label, false)
+	// no new harness-initiated control calls for this node; whatever is in flight overlaps with the stop
 	if !o.noBurst {
 		w.fireBurst()
 	}
@@ -780,8 +802,8 @@ func (w *c49World) stop(n *c49Node, class string, o c49StopOpts) bool {
 	if o.preStop != nil {
 		o.preStop()
 	}
-	before, _ := c49Alive(n.label, false)
 	t0 := time.Now()
+	reads0, writes0 := n.dev.reads.Load(), n.dev.writes.Load()
 
 	var mu sync.Mutex
 	var stopD, waitD time.Duration
@@ -848,7 +870,10 @@ func (w *c49World) stop(n *c49Node, class string, o c49StopOpts) bool {
 			which = "stop-never-returns"
 		}
 		mu.Unlock()
-		key := "C49/" + which + ":" + strings.Join(c49Sigs(own), ",")
+		key := "C49/goroutine-never-stops:" + strings.Join(c49Leafs(own), ",")
+		if which == "stop-never-returns" {
+			key = "C49/stop-never-returns:" + strings.Join(c49Leafs(groups), ",")
+		}
 		r.Violation(key, fmt.Sprintf("%s node %s (%s): %s after %v of virtual time with every goroutine durably blocked; node goroutines still alive: %v", class, n.Name, c49ModeNames[o.mode], which, c49Bound, c49Sigs(own)),
 			rec(map[string]any{"node_goroutines": c49Dump(groups), "goroutines_before": before, "full_dump": c49FullDump()}))
 		w.mo.record(class, c49Bound, c49Bound, before, len(own), true)
@@ -857,6 +882,13 @@ func (w *c49World) stop(n *c49Node, class string, o c49StopOpts) bool {
 	r.Eval(1)
 	r.DistinctClass(class)
 	r.Count("stops", 1)
+	if d := n.dev.reads.Load() - reads0; d > 0 {
+		r.Count("stops_overlapping_tun_input", 1)
+		r.Count("tun_frames_taken_after_stop_request", int(d))
+	}
+	if d := n.dev.writes.Load() - writes0; d > 0 {
+		r.Count("stops_overlapping_tun_output", 1)
+	}
 	r.Count("mode."+c49ModeNames[o.mode], 1)
 	if needed {
 		r.Count("stops_that_needed_virtual_time", 1)
@@ -871,12 +903,12 @@ func (w *c49World) stop(n *c49Node, class string, o c49StopOpts) bool {
 		synctest.Wait()
 		after2, groups2 := c49Alive(n.label, true)
 		if after2 > 0 {
-			r.Violation("C49/goroutine-never-stops:"+strings.Join(c49Sigs(groups2), ","),
+			r.Violation("C49/goroutine-never-stops:"+strings.Join(c49Leafs(groups2), ","),
 				fmt.Sprintf("%s node %s: Stop and Wait returned but %d goroutine(s) of the node are still alive %v of virtual time later: %v", class, n.Name, after2, c49Grace, c49Sigs(groups2)),
 				rec(map[string]any{"node_goroutines": c49Dump(groups2), "goroutines_before": before}))
 			okAll = w.rescue(n, nil)
 		} else {
-			r.Violation("C49/goroutine-still-running-when-wait-returned:"+strings.Join(c49Sigs(groups), ","),
+			r.Violation("C49/goroutine-still-running-when-wait-returned:"+strings.Join(c49Leafs(groups), ","),
 				fmt.Sprintf("%s node %s: %d goroutine(s) of the node were still alive at the quiescent point after Stop and Wait returned (gone %v of virtual time later): %v", class, n.Name, after, c49Grace, c49Sigs(groups)),
 				rec(map[string]any{"node_goroutines": c49Dump(groups), "goroutines_before": before}))
 		}
@@ -939,7 +971,7 @@ func (w *c49World) stop(n *c49Node, class string, o c49StopOpts) bool {
 	time.Sleep(time.Second)
 	synctest.Wait()
 	if k, g := c49Alive(n.label, true); k > 0 {
-		r.Violation("C49/goroutine-after-second-stop:"+strings.Join(c49Sigs(g), ","), fmt.Sprintf("%s node %s: %d goroutine(s) alive after late work / second Stop on the stopped node: %v", class, n.Name, k, c49Sigs(g)), rec(map[string]any{"node_goroutines": c49Dump(g)}))
+		r.Violation("C49/goroutine-after-second-stop:"+strings.Join(c49Leafs(g), ","), fmt.Sprintf("%s node %s: %d goroutine(s) alive after late work / second Stop on the stopped node: %v", class, n.Name, k, c49Sigs(g)), rec(map[string]any{"node_goroutines": c49Dump(g)}))
 		okAll = w.rescue(n, nil) && okAll
 	}
 	return okAll
@@ -1384,21 +1416,24 @@ func c49Cases() []c49Case {
 					})
 				}
 				dests := 30 + w.rng.IntN(90)
-				feed := func(k int) {
-					for i := 0; i < k; i++ {
-						p.sendTo(netip.AddrFrom4([4]byte{10, 1, byte(3 + i/200), byte(1 + i%200)}), 1)
+				feed := func(from, k int) {
+					for i := from; i < from+k; i++ {
+						pkt, _ := vnUDP4(p.Ident.Addr(), netip.AddrFrom4([4]byte{10, 1, byte(3 + i/200), byte(1 + i%200)}), 2000, 80, i%100)
+						if !p.tunSend(pkt) {
+							return
+						}
 					}
 				}
 				o := c49Opts(w)
 				switch ph {
 				case "settled", "lighthouse-tunnel-up":
-					feed(dests)
+					feed(0, dests)
 					synctest.Wait()
 				case "with-stop":
-					// a feeder keeps the tun queue full while the stop request is made
-					feed(dests / 2)
+					// a feeder keeps the tun queue full of frames for further new destinations while the stop request is made
+					feed(0, dests/2)
 					w.genWg.Add(1)
-					go func() { defer w.genWg.Done(); feed(dests) }()
+					go func() { defer w.genWg.Done(); feed(dests/2, 4000) }()
 					o.noBurst = true
 				}
 				if p.pendingCount() >= 10 {
